@@ -74,13 +74,15 @@ def judge(case):
     if pb is None:
         out["outcome"] = "converged-no-stated-bound"
         return out
+    out["outcome"] = "converged"
     if case["kind"] == "pi":
+        # the evaluation budget is sufficient by construction (max_eval_for), so the bounds are
+        # asserted whenever PI reports convergence; whether the returned values are an evaluation of
+        # the returned policy is only recorded
         thr = B.threshold(eps, g)
         c = B.measure(case["test"], B.backup_pi(nxt, rew, prob, g, V, pol), V)
         if not c < thr + slack:
-            out["outcome"] = "pi-eval-budget-exhausted"
-            return out
-    out["outcome"] = "converged"
+            out["outcome"] = "converged(values are not an evaluation of the returned policy)"
     out["ratios"]["policy %s/%s" % (case["kind"], case.get("test"))] = loss / pb
     if loss > pb + slack:
         out["fail"] = "policy loss max(v*-v^pi)=%.6g exceeds bound %.6g (iteration %d)" % (loss, pb, o["iteration"])
